@@ -12,6 +12,8 @@ use std::time::{Duration, Instant};
 pub struct Outcome {
     /// `Some` = the property is violated on this execution.
     pub violation: Option<Violation>,
+    /// Further violations with other fingerprints found in the same case.
+    pub more: Vec<Violation>,
     /// A digest of what was observed (distinct-outcome counting / vacuity).
     pub sig: u64,
     /// Whether the execution did something observable beyond a no-op (by the engine's rule).
@@ -188,8 +190,8 @@ pub fn worker_main(
         if samples.len() < 2 && (o.nontrivial || evaluations > 50) {
             samples.push((*case).clone());
         }
-        if let Some(v) = o.violation {
-            if violations.len() < 20 {
+        for v in o.violation.into_iter().chain(o.more.into_iter()) {
+            if violations.len() < 200 {
                 violations.push(json!({"case": case, "msg": v.msg, "fingerprint": v.fingerprint}));
             }
         }
@@ -279,6 +281,7 @@ fn run_isolated(prop: &str, case: &Value, timeout_s: u64, timeout_is_violation: 
 pub fn outcome_to_json(o: &Outcome) -> Value {
     json!({
         "violation": o.violation.as_ref().map(|v| json!({"msg": v.msg, "fingerprint": v.fingerprint})),
+        "more": o.more.iter().map(|v| json!({"msg": v.msg, "fingerprint": v.fingerprint})).collect::<Vec<_>>(),
         "sig": o.sig, "nontrivial": o.nontrivial, "states": o.states, "transitions": o.transitions,
         "goals": o.goals,
     })
@@ -300,6 +303,17 @@ pub fn outcome_from_json(v: &Value) -> Outcome {
                 })
             }
         }),
+        more: v["more"]
+            .as_array()
+            .map(|a| {
+                a.iter()
+                    .map(|x| Violation {
+                        msg: x["msg"].as_str().unwrap_or("").to_string(),
+                        fingerprint: x["fingerprint"].as_str().unwrap_or("").to_string(),
+                    })
+                    .collect()
+            })
+            .unwrap_or_default(),
         sig: v["sig"].as_u64().unwrap_or(0),
         nontrivial: v["nontrivial"].as_bool().unwrap_or(false),
         states: v["states"]
